@@ -112,8 +112,10 @@ public:
 
   void clear()
   {
+    NSTD_VERIF_RC_YIELD("ref", &data->ref);
     if(data->ref == 1)
     {
+      NSTD_VERIF_RC_YIELD("write", &data->ref);
       data->len = 0;
       *(char*)data->str = '\0';
     }
@@ -495,8 +497,10 @@ private:
 #ifdef ASSERT
     ASSERT(copyLength <= minCapacity);
 #endif
+    NSTD_VERIF_RC_YIELD("ref", &data->ref);
     if(data->ref == 1 && minCapacity <= data->capacity)
     {
+      NSTD_VERIF_RC_YIELD("write", &data->ref);
       ((char*)data->str)[data->len = copyLength] = '\0';
       return;
     }
